@@ -466,11 +466,28 @@ pub fn replay(checks: &[Box<dyn Check>], path: &str) -> i32 {
         return 2;
     };
     let recorded: Option<Violation> = serde_json::from_value(body["violation"].clone()).ok();
+    // SAFETY: single-threaded at this point.
+    unsafe { std::env::set_var("VERIF_EXCERPT_ALL", "1") };
     match run_one(check.as_ref(), &body["plan"], true) {
         Ok(o) => {
             println!("replay property={prop} log_hash={:016x} recorded_log_hash={}", o.log_hash, body["log_hash"].as_str().unwrap_or("?"));
-            for l in o.excerpt.iter().rev().take(25).rev() {
-                println!("  | {l}");
+            // Show the event log around the recorded step (or its tail).
+            let around = recorded.as_ref().map(|r| r.step).unwrap_or(0);
+            let pos = o
+                .excerpt
+                .iter()
+                .position(|l| l.starts_with(&format!("#{around} ")));
+            match pos {
+                Some(p) => {
+                    for l in o.excerpt.iter().skip(p.saturating_sub(30)).take(34) {
+                        println!("  | {l}");
+                    }
+                }
+                None => {
+                    for l in o.excerpt.iter().rev().take(25).rev() {
+                        println!("  | {l}");
+                    }
+                }
             }
             let hit = o.violations.iter().find(|v| match &recorded {
                 Some(r) => v.monitor == r.monitor && v.label == r.label,
